@@ -1,10 +1,12 @@
 import Driver.Proto
 import Driver.C07
+import Driver.C01
 
 open Driver
 
 def handlers : List (List String → Option String) := [
-  Driver.C07.handle
+  Driver.C07.handle,
+  Driver.C01.handle
 ]
 
 def dispatch (toks : List String) : String :=
